@@ -642,3 +642,9 @@ _C16B = [
 for _sp in _C16B:
     _sp.update(module='boltons.tbutils', kind='function', translator='py2lean_c16', gen_file='tbutils_c16')
 _C16.extend(_C16B)
+# `_some_str(value)`: `value` is an arbitrary object (`StrObj`: its `__str__` returns a str or raises - `none`, the
+# model's `Option Str` argument of `C16.someStr`).
+_C16C = [{'qualname': '_some_str', 'lean_name': 'some_str', 'params': {'value': 'StrObj'}, 'result': 'Str',
+          'tie_theorem': 'C16.src_some_str_eq_model', 'module': 'boltons.tbutils', 'kind': 'function',
+          'translator': 'py2lean_c16', 'gen_file': 'tbutils_c16'}]
+_C16.extend(_C16C)
